@@ -30,6 +30,14 @@ def run_case(case, drv):
     r['evaluated'] += len(ir['ext']) + len(ir['per'])
     for d in PE.compare(case, ir, drv):
         r['disagreements'].append({'component': 'periodic/coarse', 'detail': d})
+    # an option that is set must go through its mechanism: an asset declared periodic / on a coarser frequency whose set-up works
+    # and has variables, but for which no call of __make_periodic__ / __extend_mapping_to_minor_grid__ was recorded, ignored it
+    if 'err' not in ir['with'] and len(ir['with'].get('c', [])) > 0:
+        if 'periodicity' in case['opt'] and not ir['per']:
+            r['disagreements'].append({'component': 'periodic/coarse', 'detail': 'asset %s declared periodic (%s) but no call of __make_periodic__ was recorded during its set-up' % (
+                case['focus']['type'], case['opt']['periodicity'])})
+        if 'freq' in case['opt'] and not ir['ext']:
+            f.append('freq-without-extension')
     if case.get('oracle') and 'err' not in ir['with']:
         v, feats = PE.oracle(case, ir)
         r['violations'] = v
